@@ -475,11 +475,35 @@ static void case_kde(Rng& rng, uint64_t index)
 		d.value	 = x0 + W * u;
 		d.weight = rng.coin(0.5) ? 1.0 : rng.loguni(1e-2, 1e2);
 	}
+	// samples that carry no weight (anywhere in the list, also at its head): they must not influence the estimate, let alone turn it into NaN
+	if(index % 3 == 1)
+	{
+		for(auto& d : data)
+			if(rng.coin(0.2))
+				d.weight = 0.0;
+		data[0].weight = 0.0;
+		data[N / 2].weight = std::max(data[N / 2].weight, 1.0);
+	}
 	double bw = rng.coin(0.5) ? 0.0 : W * rng.loguni(0.02, 0.5);
 	set_params(J().str("family", "kde").i("N", N).d("x_min", x0).d("x_max", x1).d("bandwidth", bw).i("shape", shape));
 	hash_param(x0), hash_param(W), hash_param(bw), hash_param(data[0].value), hash_param_u(N);
 	mark_nontrivial();
-	Interpolation kde = Perform_KDE(data, x0, x1, bw);
+	// the estimate is used as an initialiser, assigned to a default-constructed object, or assigned to an object that has been in use (with a prefactor):
+	// what it integrates to must not depend on how the caller stores it
+	Interpolation kde_direct = Perform_KDE(data, x0, x1, bw);
+	Interpolation kde;
+	int storage = (int) ((index / 4) % 3);
+	if(storage == 0)
+		kde = kde_direct;
+	else if(storage == 1)
+		kde = Perform_KDE(data, x0, x1, bw);
+	else
+	{
+		kde = Interpolation(std::vector<double> {0.0, 1.0, 2.0, 3.0}, std::vector<double> {1.0, 3.0, 2.0, 5.0});
+		kde.Set_Prefactor(-2.5);
+		(void) kde(1.5);
+		kde = Perform_KDE(data, x0, x1, bw);
+	}
 	double I = kde.Integrate(x0, x1);
 	// the estimate is normalised with the interpolation's own integral: one to rounding of Interpolation::Integrate (eps x height x |x| per piece, 150 pieces)
 	double tolI = 1e-9 + 64 * EPS * 150 * (1 + std::max(std::fabs(x0), std::fabs(x1)) / W);
